@@ -172,13 +172,15 @@ fn data_word_case(id: u8, active: u32, mode: Mode) -> Result<Option<String>, Str
 
 /// `history`: 0 = the packet under test is the first of the link; 1 = a complete packet whose IHW announced the
 /// complementary lane mask comes first (the mask of the packet's own IHW governs its data words); 2 = as 1, and the
-/// IHW of the packet under test also has a reserved bit set (it is reported, and still is this packet's IHW).
+/// IHW of the packet under test also has a reserved bit set (it is reported, and still is this packet's IHW); 3 = first
+/// packet of the link, but the data-position word before the word under test has itself an unrecognised identifier
+/// (0x29: reported, parsed as a data word) - the word under test is still a word after the start of the data.
 fn data_word_case_h(id: u8, active: u32, mode: Mode, history: u8) -> Result<Option<String>, String> {
     let cfg = val::mode_cfg(mode);
     let mut st = val::CdpStepper::new(cfg);
     let mut r = Rdh::base();
     let mut base = 0u64;
-    if history > 0 {
+    if history == 1 || history == 2 {
         st.set_rdh(&r.encode(), 0)?;
         let other = !active & 0x0FFF_FFFF;
         for w in [
@@ -198,8 +200,8 @@ fn data_word_case_h(id: u8, active: u32, mode: Mode, history: u8) -> Result<Opti
     }
     let lead = [
         ihw,
-        words::Tdh { trigger_type: (r.trigger_type & 0xFFF) as u16, internal: true, no_data: false, continuation: false, bc: if history > 0 { 0x40 } else { 0 }, orbit: r.orbit }.encode(),
-        words::data_word(0x20, [0; 9]), // a first data word so that a following 0xF8 counts as data, not as a CDW
+        words::Tdh { trigger_type: (r.trigger_type & 0xFFF) as u16, internal: true, no_data: false, continuation: false, bc: if history == 1 || history == 2 { 0x40 } else { 0 }, orbit: r.orbit }.encode(),
+        words::data_word(if history == 3 { 0x29 } else { 0x20 }, [0; 9]), // a first data word so that a following 0xF8 counts as data, not as a CDW
     ];
     for (i, l) in lead.iter().enumerate() {
         let m = val::error_texts(&st.word(l)?);
@@ -220,9 +222,12 @@ fn data_word_case_h(id: u8, active: u32, mode: Mode, history: u8) -> Result<Opti
         }
     }
     let kind = words::kind_by_id(id);
-    if matches!(kind, words::WordKind::Tdt | words::WordKind::Cdw) {
-        return Ok(None); // legal non-data words in the data state (TDT ends the event, CDW rule is C01/C02's)
+    if matches!(kind, words::WordKind::Tdt) {
+        return Ok(None); // a legal non-data word in the data state (TDT ends the event)
     }
+    // 0xF8 is a calibration word only at the very start of the data; here a data-position word came before it, so
+    // it is a data word whose identifier lies outside the valid ranges
+    let want_reported = if matches!(kind, words::WordKind::Cdw) { true } else { want_reported };
     if want_reported != !msgs.is_empty() {
         return Ok(Some(format!(
             "data word id {id:#04x}, active lanes {active:#x}, mode {}: model says reported={want_reported} ({verdict:?}), tool printed {:?}",
@@ -375,7 +380,7 @@ pub fn run(tier: Tier) -> i32 {
     }
     // with a history: an earlier packet announced the complementary mask; the packet's own IHW sane / with a reserved bit
     let mut hcases = Vec::new();
-    for history in [1u8, 2] {
+    for history in [1u8, 2, 3] {
         for &id in &ids {
             for &m in &masks {
                 hcases.push((id, m, history));
@@ -388,7 +393,7 @@ pub fn run(tier: Tier) -> i32 {
         match r {
             Ok(None) => {}
             Ok(Some(d)) => rep.violation(Violation {
-                signature: format!("data-word:lanes-of-an-earlier-ihw:{}", if *h == 2 { "own-ihw-with-reserved-bit" } else { "own-ihw-sane" }),
+                signature: format!("data-word:lanes-of-an-earlier-ihw:{}", match *h { 2 => "own-ihw-with-reserved-bit", 3 => "after-a-word-with-unrecognised-id", _ => "own-ihw-sane" }),
                 description: format!("{d} [an earlier packet's IHW announced the complementary mask]"),
                 replay: json!({"kind": "data-history", "id": id, "active": m, "history": h}),
             }),
